@@ -64,15 +64,19 @@ Init == /\ now = 0 /\ st = << >> /\ version = 0 /\ vi = << >> /\ mi = << >>
 -----------------------------------------------------------------------------
 (* Set(sil): update in place / expire + create / create                     *)
 
-SetReply(id, ms, start, end, cmt, res, rid) ==
-  [op |-> "set", id |-> id, ms |-> ms, start |-> start, end |-> end, cmt |-> cmt, res |-> res, rid |-> rid]
+SetReply(id, ms, start, end, cmt, res, rid, via) ==
+  [op |-> "set", id |-> id, ms |-> ms, start |-> start, end |-> end, cmt |-> cmt, res |-> res, rid |-> rid, via |-> via]
 
-Set(id, ms, start0, end, cmt) ==
+\* via = "lib": Silences.Set called directly; via = "api": POST /api/v2/silences, whose
+\* handler first refuses start >= end and an end in the past (api/v2 postSilencesHandler)
+SetV(id, ms, start0, end, cmt, via) ==
   LET start1 == IF start0 = Unset THEN now ELSE start0
-      R(res, rid) == SetReply(id, ms, start0, end, cmt, res, rid)
+      R(res, rid) == SetReply(id, ms, start0, end, cmt, res, rid, via)
       unchanged == UNCHANGED <<now, st, version, vi, mi, cache, nid, bcast>>
   IN
-  IF ~ValidMSet(MSets[ms]) \/ end < start1
+  IF via = "api" /\ (start0 = Unset \/ start0 >= end \/ end < now)
+    THEN last' = R("invalid", "") /\ unchanged
+  ELSE IF ~ValidMSet(MSets[ms]) \/ end < start1
     THEN last' = R("invalid", "") /\ unchanged
   ELSE IF id # "" /\ id \notin DOMAIN st
     THEN last' = R("notfound", "") /\ unchanged
@@ -110,6 +114,8 @@ Set(id, ms, start0, end, cmt) ==
                /\ bcast' = bcast + (IF ex[2] THEN 1 ELSE 0) + (IF m[2] THEN 1 ELSE 0)
                /\ last' = R("ok", new)
                /\ UNCHANGED <<now, cache>>
+
+Set(id, ms, start0, end, cmt) == SetV(id, ms, start0, end, cmt, "lib")
 
 (* Expire(id) *)
 Expire(id) ==
